@@ -130,6 +130,9 @@ def _run_once(prog, at: int, exc, record: bool = False) -> Dict[str, Any]:
     ctxd["vf_marker"] = marker
     ctx = Context(ctxd)
     refs = [weakref.ref(marker), weakref.ref(ctx)]
+    fp_before = P._ctx_fingerprint(ctx)[:2]       # the layers of the Context (not the depth of its render_context:
+    # a failed component leaves an empty, invisible RenderContext layer behind - lookups only see the top layer - which
+    # changes nothing a later render can observe; demanding its removal would be more than the property states)
     res: Dict[str, Any] = {"err": "", "same_object": None, "msg": "", "out": None}
     pre = provtrace.snapshot_now() if record and provtrace.start() else None
     try:
@@ -148,6 +151,9 @@ def _run_once(prog, at: int, exc, record: bool = False) -> Dict[str, Any]:
         provtrace.mark_end(bool(res["err"]))
         res["ptrace"] = provtrace.project(provtrace.stop(), pre)
     PLAN.update(exc=None, log=[])
+    # whatever happened, the caller's Context object is as it was (layers pushed by the library are gone, also when the
+    # exception crossed {% provide %} / component / slot / fill tags)
+    res["ctx_restored"] = P._ctx_fingerprint(ctx)[:2] == fp_before
     if res["err"] and at > 0:
         # "every later render behaves as if the failed one had never happened" - also a later render that is handed the
         # SAME Context object (a view that catches the error and renders a fallback with its context)
@@ -252,6 +258,9 @@ def judge(chk: Check, prog, exp, res) -> None:
         bad = {k: v for k, v in r["after_residue"].items() if v}
         if bad:
             chk.violation(c, {"what": "residue-after-next-render", "residue": bad})
+            continue
+        if not r.get("ctx_restored", True):
+            chk.violation(c, {"what": "Context-object-of-the-failed-render-keeps-layers-of-that-render"})
             continue
         if "same_ctx_err" in r and (r["same_ctx_err"] != dry["err"] or r["same_ctx_out"] != dry["out"]):
             chk.violation(c, {"what": "next-render-with-the-same-Context-affected", "expected": dry["out"],
